@@ -15,4 +15,28 @@ def whileFuel {σ : Type} : Nat → (σ → Bool) → (σ → σ) → σ → σ
   | 0, _, _, s => s
   | fuel + 1, cond, body, s => if cond s then whileFuel fuel cond body (body s) else s
 
+/-! ### error enums of the source that the hand-written model does not have (it keeps `Option`) -/
+
+/-- `u256::Error` (the `Error` of `fields/fq2.rs`) -/
+inductive U256Error where
+  | InvalidLength (expected actual : Nat)
+  | NotMember
+  deriving DecidableEq, Repr
+
+/-- `FieldError` of lib.rs -/
+inductive FieldError where
+  | InvalidSliceLength
+  | InvalidU512Encoding
+  | NotMember
+  | InvalidDecimalString
+  deriving DecidableEq, Repr
+
+/-- `fields::Fq2::from_slice` with its errors: SPEC of the translation of fq2.rs `from_slice`, and what lib.rs calls.
+    Forgetting the error gives the model's `Api.fq2FromSlice` (`GenEquiv.fq2FromSliceE_toOption`). -/
+def fq2FromSliceE (s : List UInt8) : Except U256Error Fq2 :=
+  if s.length ≠ 64 then .error (.InvalidLength 64 s.length) else
+  match Api.fq2FromSlice s with
+  | some v => .ok v
+  | none => .error .NotMember
+
 end Sm9
